@@ -1074,22 +1074,60 @@ func consumerOnlyMark(p *Prog, pred *ssa.Function) (string, bool) {
 // as they complete land in completion order. The helper (and everything it expands to inside the
 // types package) therefore starts no goroutine: the chunks are fetched one after the other.
 func ruleHelperSequential(c *Check, p *Prog, rule string) {
-	c.Doc(rule, "CS: the DA retrieval helper starts no goroutine (a `go` statement, directly or in a function of its package it calls): the blobs of a height are appended in the order of the listed ids, which concurrent chunk fetches appending on completion do not keep.")
+	c.Doc(rule, "CS: the DA retrieval helper starts no goroutine that appends to a slice it shares with the others (a `go` statement, directly or in a function of its package it calls, whose body stores append(…) into a captured variable): the blobs of a height are collected in the order of the listed ids, which concurrent chunk fetches appending on completion do not keep (a goroutine writing its own slot of a pre-sized slice is fine).")
 	fn := p.MustFunc(typesF("RetrieveWithHelpers"))
 	g := BuildECFG(p, fn, ownPkgOpts(rootPath+"/types", 2))
 	c.NoteGraph(g)
+	// a goroutine that appends to a shared slice collects in completion order; one that writes
+	// its own slot of a pre-sized slice does not
+	appendsShared := func(body *ssa.Function) bool {
+		fns := append([]*ssa.Function{body}, body.AnonFuncs...)
+		for _, bf := range fns {
+			for _, b := range bf.Blocks {
+				for _, in := range b.Instrs {
+					st, ok := in.(*ssa.Store)
+					if !ok {
+						continue
+					}
+					if _, captured := st.Addr.(*ssa.FreeVar); !captured {
+						continue
+					}
+					if call, isCall := st.Val.(*ssa.Call); isCall {
+						if bi, isB := call.Common().Value.(*ssa.Builtin); isB && bi.Name() == "append" {
+							return true
+						}
+					}
+				}
+			}
+		}
+		return false
+	}
 	var gos []string
+	consider := func(gi *ssa.Go, where *ssa.Function) {
+		body, _ := gi.Common().Value.(*ssa.MakeClosure)
+		if body == nil {
+			if sf := gi.Common().StaticCallee(); sf != nil && sf.Blocks != nil && !appendsShared(sf) {
+				return
+			}
+			gos = append(gos, fnShort(where)+"@"+p.InstrPos(gi))
+			return
+		}
+		if bf, _ := body.Fn.(*ssa.Function); bf != nil && !appendsShared(bf) {
+			return
+		}
+		gos = append(gos, fnShort(where)+"@"+p.InstrPos(gi))
+	}
 	for _, nd := range g.Nodes {
-		if _, ok := nd.In.(*ssa.Go); ok && nd.Kind == NInstr {
-			gos = append(gos, fnShort(nd.Ctx.Fn)+"@"+p.InstrPos(nd.In))
+		if gi, ok := nd.In.(*ssa.Go); ok && nd.Kind == NInstr {
+			consider(gi, nd.Ctx.Fn)
 		}
 	}
 	// closures of the helper are part of it
 	for _, af := range fn.AnonFuncs {
 		for _, b := range af.Blocks {
 			for _, in := range b.Instrs {
-				if _, ok := in.(*ssa.Go); ok {
-					gos = append(gos, fnShort(af)+"@"+p.InstrPos(in))
+				if gi, ok := in.(*ssa.Go); ok {
+					consider(gi, af)
 				}
 			}
 		}
@@ -1097,7 +1135,7 @@ func ruleHelperSequential(c *Check, p *Prog, rule string) {
 	sort.Strings(gos)
 	inst := "RetrieveWithHelpers ⟂ sequential"
 	if len(gos) == 0 {
-		c.OK(rule, inst, fnName(fn), p.Pos(fn.Pos()), "no goroutine is started while the blobs of a height are collected", true)
+		c.OK(rule, inst, fnName(fn), p.Pos(fn.Pos()), "no goroutine that appends to a shared slice is started while the blobs of a height are collected", true)
 	} else {
 		c.Bad(rule, inst, fnName(fn), p.Pos(fn.Pos()), "the retrieval helper starts goroutines ("+strings.Join(gos, ", ")+"): blobs fetched concurrently are collected in completion order, not in the order of the ids — a height with more blobs than one chunk is released out of DA order and the ids handed out with a batch no longer belong to its transactions", nil)
 	}
